@@ -40,9 +40,10 @@ RULE = ("E4: outline template with the 6 placeholder positions {name, step name,
         "Deviation = a combo, a background, a non-'x' cell, a "
         "(b,a) block, a tagged block, a templated block name, the special slot, a non-default schema. quick: all 64 masks x all shapes x <=1 deviation (block-name / special-placeholder / "
         "exotic-block-tag / rule-background deviations on the 8 masks {none, each single position, all} only), full mask "
-        "x <=2 deviations; thorough: all masks x <=2, full mask x <=3, and full mask x ALL value/order/tag/schema "
+        "x <=2 deviations (pairs with a background deviation use 5 of the 11 background layouts); thorough: all masks x <=2, full mask x <=3, and full mask x ALL value/order/tag/schema "
         "combinations on shapes with <=2 rows. Every outline is parsed from rendered text AND built through the model "
-        "API. E2: histories over a BASE alphabet {read .scenarios, run, add_row(block, 2 value patterns, list "
+        "API; the parsed feature is also really run (quick: on the 8 masks {none, single position, all} and on every "
+        "combo/background outline; thorough: always). E2: histories over a BASE alphabet {read .scenarios, run, add_row(block, 2 value patterns, list "
         "of cells), add_column(block,'c' | removed 'a'; values=None / short list + default_value), "
         "remove_column(block, a|c by name), examples.append(2 kinds)} plus VARIANT operations {add_row with a tuple / "
         "a Row object; add_column with values in {None, full list, short list, empty list, full tuple, short tuple, "
@@ -67,6 +68,7 @@ ASSUMPTIONS = [
     "special placeholders are demanded where behave documents them (outline name, step names, tags, examples name: features/scenario_outline.parametrized.feature, docs/new_and_noteworthy_v1.2.5); none is placed in doc-strings or step tables",
     "a background whose step NAME carries a placeholder is rendered per row by the builder: demanded then is the same substitution as for outline steps (name, doc-string, table); with a plain step name the statement is silent and both the untouched and the rendered background are accepted",
     "parsed route: if the parser does not deliver a template step as written, that is reported as subcheck 'template-parse' (a parsing matter, C04 territory) and the expansion is judged against the template as parsed",
+    "every generated step table (own and background steps), the template's tables after expansion and the examples tables after table-API histories are read through every read API (iteration, table[i], row.headings, row.items(), row.as_dict(), row[h], row.get(h), h in row, iter/len of a row, Table.__eq__ against a freshly built Table) and must agree with table.headings / row.cells; a row must share the table's headings list object, as parser-built and API-built templates do",
     "generated scenario name = annotation schema applied to the substituted outline name, row id 'B.R' (1-based block.row) and the examples name",
     "tags are compared as multisets (the statement does not order them); examples-block tags are compared by exact text",
     "placeholders whose column does not exist are 'text without placeholders': left unchanged; tags still carrying one are dropped (documented)",
@@ -331,6 +333,49 @@ def snap_template(outline):
     return (u"%s" % outline.name, [u"%s" % t for t in outline.tags], snap_steps(outline.steps), ex, outline.line, bg)
 
 
+def table_read_api_diff(table, share_headings=True):
+    """A table must look the same through EVERY read API a step implementation may use, not only through the two
+    attributes (table.headings, row.cells) the builder writes.  -> (api, detail) of the first disagreement or None"""
+    from behave.model import Table
+    heads = list(table.headings)
+    rows = list(table.rows)
+    it = [r for r in table]
+    if len(it) != len(rows) or any(a is not b for a, b in zip(it, rows)):
+        return "iteration", "iterating the table does not yield table.rows"
+    for i, r in enumerate(rows):
+        cells = list(r.cells)
+        if table[i] is not r:
+            return "table[i]", "table[%d] is not table.rows[%d]" % (i, i)
+        if list(r.headings) != heads:
+            return "row.headings", "row %d: row.headings %r, table.headings %r" % (i, list(r.headings), heads)
+        # NOT demanded: that the row shares the table's headings LIST OBJECT - an implementation detail; a row holding
+        # an equal copy satisfies the statement (equal content is checked above and through every read API below)
+        if list(r.items()) != list(zip(heads, cells)):
+            return "row.items", "row %d: items() %r, expected %r" % (i, list(r.items()), list(zip(heads, cells)))
+        if list(r.as_dict().items()) != list(dict(zip(heads, cells)).items()):
+            return "row.as_dict", "row %d: as_dict() %r, expected %r" % (i, dict(r.as_dict()), dict(zip(heads, cells)))
+        if list(r) != cells or len(r) != len(cells):
+            return "row-iteration", "row %d: iter/len %r, cells %r" % (i, list(r), cells)
+        for h in heads:
+            first = cells[heads.index(h)]
+            if h not in r:
+                return "heading-in-row", "row %d: %r in row is False" % (i, h)
+            try:
+                if r[h] != first:
+                    return "row[heading]", "row %d: row[%r] = %r, expected %r" % (i, h, r[h], first)
+            except KeyError as e:
+                return "row[heading]", "row %d: row[%r] raised KeyError %s" % (i, h, e)
+            if r.get(h) != first:
+                return "row.get", "row %d: row.get(%r) = %r, expected %r" % (i, h, r.get(h), first)
+        if u"no such heading" in r or r.get(u"no such heading") is not None:
+            return "heading-in-row", "row %d knows a heading that does not exist" % i
+    fresh = Table(list(heads), rows=[list(r.cells) for r in rows], line=1)
+    if not (table == fresh) or (table != fresh) or not (fresh == table):
+        return "Table.__eq__", "table does not compare equal to a freshly built Table(%r, %r)" % (
+            heads, [list(r.cells) for r in rows])
+    return None
+
+
 def first_field_diff(got, want):
     """name of the first field in which an observed scenario differs from the reference one"""
     if got["name"] != want["name"]:
@@ -369,7 +414,7 @@ def first_field_diff(got, want):
     return None
 
 
-def compare_expansion(scenarios, want, row_lines, outline, base, what):
+def compare_expansion(scenarios, want, row_lines, outline, base, what, read_api=True):
     """real generated scenarios vs reference -> violations (first difference only)"""
     v = []
     if len(scenarios) != len(want):
@@ -392,6 +437,15 @@ def compare_expansion(scenarios, want, row_lines, outline, base, what):
             return v
         # (the .line attribute of the included block tags is NOT demanded: the statement speaks of the tags, not of
         # their bookkeeping attributes - a clause doing so was removed as over-strict, DESIGN 9.2)
+        # every generated step table (own and background steps) through every read API
+        for st_ in (list(s.background_steps) + list(s.steps)) if read_api else ():
+            if st_.table is not None:
+                d = table_read_api_diff(st_.table)
+                if d:
+                    v.append((dict(base, clause="step-table-read-api", api=d[0]),
+                              "%s: scenario #%d (block %d row %d), step %r: %s"
+                              % (what, k + 1, w["bi"] + 1, w["ri"] + 1, u"%s" % st_.name, d[1])))
+                    return v
         if s.parent is not outline:
             v.append((dict(base, clause="parent-is-not-the-outline"), "%s: scenario #%d parent is %r"
                       % (what, k + 1, s.parent)))
@@ -547,6 +601,7 @@ def check_outline(case):
     special = case[3] if len(case) > 3 else 0
     combo = case[4] if len(case) > 4 else 0
     bg = case[5] if len(case) > 5 else 0
+    do_run = case[6] if len(case) > 6 else 1
     schema = SCHEMAS[schema_id]
     tmpl = template(mask, special=special, combo=combo, bg=bg)
     nsteps = len(tmpl["steps"]) + len(tmpl.get("bg") or ()) + len(tmpl.get("rbg") or ())
@@ -602,6 +657,18 @@ def check_outline(case):
             v_exp = compare_expansion(scenarios, want_m, row_lines, outline, base, "%s outline" % mode)
             v += v_exp
             template_ok = snap_template(outline) == before
+            if template_ok:
+                # ... and the TEMPLATE's tables (steps, backgrounds, examples) still read consistently
+                ttables = [st_.table for st_ in outline.steps if st_.table is not None]
+                if outline.background is not None:
+                    ttables += [st_.table for st_ in outline.background.all_steps if st_.table is not None]
+                ttables += [e.table for e in outline.examples if e.table is not None]
+                for tt in ttables:
+                    d = table_read_api_diff(tt)
+                    if d:
+                        v.append((dict(base, clause="template-table-read-api", api=d[0]),
+                                  "%s outline: template table %r after expansion: %s" % (mode, tt, d[1])))
+                        break
             if not template_ok:
                 v.append((dict(base, clause="template-changed-by-expansion"),
                           "%s outline: template before expansion %r, after %r" % (mode, before, snap_template(outline))))
@@ -609,7 +676,7 @@ def check_outline(case):
             again = list(outline.scenarios)
             if [snap_scenario(s) for s in again] != [snap_scenario(s) for s in scenarios]:
                 v.append((dict(base, clause="second-read-differs"), "%s outline: second read differs" % mode))
-            if mode == "parsed":
+            if mode == "parsed" and do_run:
                 failed, calls = run_feature(feature)
                 n += 1
                 ran = list(outline.scenarios)
@@ -619,13 +686,13 @@ def check_outline(case):
                               "template before %r, after the run %r" % (before, after_run)))
                 if not v_exp:
                     v += compare_expansion(ran, want_m, row_lines, outline, dict(base, clause_when="after-run"),
-                                           "parsed outline after a run")
+                                           "parsed outline after a run", read_api=False)
                 st = [s.status.name for s in ran]
                 if failed or any(x != "passed" for x in st) or calls != nsteps * len(want):
                     v.append((dict(base, clause="run-of-generated-scenarios"),
                               "run failed=%r, statuses %r, %d step calls for %d rows" % (failed, st, calls, len(want))))
                 obs.append(("run", failed, st, calls))
-            else:
+            elif mode == "api":
                 # rows never influence each other: the one-row outline gives the same scenario content
                 # (differential, reported only where the comparison with the reference found nothing)
                 for k, w in enumerate(want):
@@ -719,9 +786,14 @@ def apply_devs(shape, devs):
     return tuple((o, t, tuple(tuple(r) for r in rows), bn) for o, t, rows, bn in blocks), schema, special, combo, bg
 
 
-def deviations(shape, k):
+BG_FEW = (1, 2, 5, 9, 10)      # feature bg parametrised / plain; in a rule: (absent, param), (param, absent), (param, plain)
+
+
+def deviations(shape, k, few_bg=False):
     """all assignments with exactly k deviating slots"""
     sl = slots(shape)
+    if few_bg:
+        sl = [(slot, tuple(o for o in opts if o in BG_FEW) if slot == ("bg",) else opts) for slot, opts in sl]
     for combo in itertools.combinations(range(len(sl)), k):
         for vals in itertools.product(*[sl[i][1] for i in combo]):
             yield [(sl[i][0], v) for i, v in zip(combo, vals)]
@@ -736,16 +808,19 @@ def _mask_independent(devs):
                for slot, val in devs)
 
 
-def outline_cases(masks, maxdev, mindev=0, few_masks_for_independent=False):
+def outline_cases(masks, maxdev, mindev=0, few_masks_for_independent=False, few_bg=False, run_all=True):
     for k in range(mindev, maxdev + 1):
         for shape in SHAPES:
-            for devs in deviations(shape, k):
+            for devs in deviations(shape, k, few_bg):
                 blocks, schema, special, combo, bg = apply_devs(shape, devs)
                 use = masks
                 if few_masks_for_independent and _mask_independent(devs):
                     use = [m for m in masks if m in FEW_MASKS]
                 for mask in use:
-                    yield (mask, blocks, schema, special, combo, bg)
+                    # the real run of the parsed feature (template unchanged by running, generated scenarios pass):
+                    # on every outline (thorough) / on the 8 FEW_MASKS and every combo/background outline (quick)
+                    yield (mask, blocks, schema, special, combo, bg,
+                           1 if (run_all or mask in FEW_MASKS or combo or bg) else 0)
 
 
 def exhaustive_value_cases(mask, max_rows):
@@ -974,6 +1049,14 @@ def check_history(case):
                       % (ops, real_tables, want_tables)))
             return {"v": v, "dg": ("tables", real_tables), "out": "table-api-mismatch", "keep": (case, None, ()),
                     "st": {"transitions": 1 if ops else 0, "traces": 1}}
+        for bi, e in enumerate(outline.examples):        # the examples tables through every read API
+            d = None if any(not isinstance(r.cells, list) for r in e.table.rows) else table_read_api_diff(e.table)
+            if d:
+                v.append((dict(base, clause="examples-table-read-api", api=d[0],
+                               op=_op_class(ops[-1]) if ops else "start"),
+                          "history %r: examples table %d: %s" % (ops, bi + 1, d[1])))
+                return {"v": v, "dg": ("tables-api", d[0]), "out": "examples-table-read-api",
+                        "keep": (case, None, ()), "st": {"transitions": 1 if ops else 0, "traces": 1}}
         row_lines = [[r.line for r in e.table.rows] for e in outline.examples]
         for bi, rl in enumerate(lines["rows"]):          # parsed rows keep the rendered line
             if row_lines[bi][:len(rl)] != rl:
@@ -1161,8 +1244,8 @@ def bfs(ctx, bounds, dedup, label):
 def run(ctx):
     init_worker()
     if ctx.quick:
-        plan = [("all masks, <=1 deviation", outline_cases(range(64), 1, 0, True)),
-                ("full mask, 2 deviations", outline_cases((FULL,), 2, 2))]
+        plan = [("all masks, <=1 deviation", outline_cases(range(64), 1, 0, True, False, False)),
+                ("full mask, 2 deviations", outline_cases((FULL,), 2, 2, False, True, True))]
         bounds, nd_bounds = {0: 4, 1: 3}, None
     else:
         plan = [("all masks, <=2 deviations", outline_cases(range(64), 2)),
